@@ -13,7 +13,7 @@ FAMILIES = {
     "velocity": ["cm/s", "km/s", "m/s"],
     "density": ["g/cm**3", "kg/m**3", "M_sun/pc**3"],
     "energy": ["erg", "J"],
-    "dimensionless": ["dimensionless"],
+    "dimensionless": ["dimensionless", "km/m", "percent"],
     "astro": ["R_sun", "au", "R_earth", "R_jup"],
 }
 
